@@ -143,7 +143,9 @@ Cells(row, rules) == Rewrite(rules, row.cells).out
 ExpTuple(tpls, cells) == [k \in 1..Len(tpls) |-> LET e == Expand(tpls[k], cells, 0) IN IF e.some THEN e.s ELSE "*"]
 RowMatches(printed, want) == Len(printed) = Len(want) /\ \A k \in 1..Len(want) : printed[k] = want[k] \/ printed[k] = "*"
 C18Classes(bg, p) ==
+   /\ Len(p.lex) = m.nseed /\ Len(tin.seed) = m.nseed
    /\ \A i \in 1..m.nseed :
+        /\ p.lex[i].r \in 1..Len(bg.R) /\ p.lex[i].l \in 1..Len(bg.L)
         /\ RowMatches(bg.R[p.lex[i].r], ExpTuple(tin.T.left, Cells(tin.seed[i], tin.rules.left)))
         /\ RowMatches(bg.L[p.lex[i].l], ExpTuple(tin.T.right, Cells(tin.seed[i], tin.rules.right)))
    /\ \A i, j \in 1..m.nseed :
@@ -159,6 +161,7 @@ C18Unk(bg, p) ==
    LET su == CatSorted(tin.unk) IN
    Len(p.unk) = Len(su) =>
    \A k \in 1..Len(su) :
+      /\ p.unk[k].r \in 1..Len(bg.R) /\ p.unk[k].l \in 1..Len(bg.L)
       /\ RowMatches(bg.R[p.unk[k].r], ExpTuple(tin.T.left, Cells(su[k], tin.rules.left)))
       /\ RowMatches(bg.L[p.unk[k].l], ExpTuple(tin.T.right, Cells(su[k], tin.rules.right)))
       /\ \A i \in 1..m.nseed :
@@ -182,6 +185,7 @@ C18User(bg, p, us) ==
       /\ IdsNameExpansions(m.fs[lab].l, m.lmap, tin.T.left, Cells(us[k], tin.rules.left))
       /\ IdsNameExpansions(m.fs[lab].r, m.rmap, tin.T.right, Cells(us[k], tin.rules.right))
       /\ ((us[k].l = 0 /\ us[k].r = 0 /\ us[k].c = 0) =>
+            /\ p.user[k].r \in 1..Len(bg.R) /\ p.user[k].l \in 1..Len(bg.L)
             /\ RowMatches(bg.R[p.user[k].r], ExpTuple(tin.T.left, Cells(us[k], tin.rules.left)))
             /\ RowMatches(bg.L[p.user[k].l], ExpTuple(tin.T.right, Cells(us[k], tin.rules.right))))
 
